@@ -5,11 +5,12 @@ from typing import Any, List, Optional, Tuple
 
 from pjrpc.client import AbstractAsyncClient, AbstractClient
 
-REAL_CALLS: List[Tuple[str, str, bool]] = []
+REAL_CALLS: List[Tuple[Any, ...]] = []
 
 
-def _real_reply(endpoint: str, request_text: str, is_notification: bool) -> Optional[str]:
-    REAL_CALLS.append((endpoint, request_text, is_notification))
+def _real_reply(endpoint: str, request_text: str, is_notification: bool, kwargs: Any = None) -> Optional[str]:
+    # what the real transport was handed: endpoint, text, flag and the transport keyword arguments (headers, timeout ...)
+    REAL_CALLS.append((endpoint, request_text, is_notification, dict(kwargs or {})))
     return json.dumps({'real-transport': endpoint, 'echo': request_text})
 
 
@@ -19,7 +20,7 @@ class SyncTarget(AbstractClient):
         self._endpoint = endpoint
 
     def _request(self, request_text: str, is_notification: bool = False, **kwargs: Any) -> Optional[str]:
-        return _real_reply(self._endpoint, request_text, is_notification)
+        return _real_reply(self._endpoint, request_text, is_notification, kwargs)
 
 
 class AsyncTarget(AbstractAsyncClient):
@@ -28,4 +29,4 @@ class AsyncTarget(AbstractAsyncClient):
         self._endpoint = endpoint
 
     async def _request(self, request_text: str, is_notification: bool = False, **kwargs: Any) -> Optional[str]:
-        return _real_reply(self._endpoint, request_text, is_notification)
+        return _real_reply(self._endpoint, request_text, is_notification, kwargs)
